@@ -6,6 +6,10 @@
 //!   c01 coalesce <off:len,off:len,…>         real BlobLocations::coalesce chain → `ok <off>:<len>:<n> …`
 //!   c01 link <target-hex>                   real NodeType::from_link / to_link (+ serde_json round trip of the node) →
 //!                                           `ok <raw present 0|1> <to_link bytes> <stored string bytes, `-` if raw present>`
+//!   c01 lookup <name-hex,…> <query-hex,…>    ONE directory `d` holding (empty) files of these names is backed up; per query the real
+//!                                           `Tree::node_from_path` (`Repository::node_from_path(tree, src/d/<query>)`) → `f<index of the
+//!                                           node in the stored tree>` | `n` (not found); model: `Snapshot.findNode` (linear search on
+//!                                           un-escaped names) over the byte-sorted names after `toSNode`/`fromSNode` (escape → un-escape)
 //!   c01 e2e <cfg…> [opt…] <entries…> <seed>  real init + backup of an in-memory tree, then every way of reading the
 //!                                           snapshot back is compared with the source (oracles); observation = per
 //!                                           entry `path:kind[:len:chunk-lengths]`, which the model predicts with the
@@ -492,7 +496,7 @@ fn ls_set<S: IndexedFull>(repo: &Repository<S>, node: &Node, opts: &LsOptions) -
 
 /// Every way of reading the snapshot below `root` back, compared with `exps`; Ok = the observation items.
 #[allow(clippy::too_many_lines)]
-fn verify<S: IndexedFull>(repo: &Repository<S>, root: &Node, exps: &[Exp], opts: &Opts, seed: u64, tmp: &Path) -> Result<Vec<String>, String> {
+fn verify<S: IndexedFull>(repo: &Repository<S>, snap: &SnapshotFile, prefix: &Path, root: &Node, exps: &[Exp], opts: &Opts, seed: u64, tmp: &Path) -> Result<Vec<String>, String> {
     // --- ls: names, types, link targets, permission bits, mtimes
     let ls: Vec<(PathBuf, Node)> = repo.ls(root, &LsOptions::default()).and_then(|it| it.collect()).map_err(|e| format!("oracle-fail:ls-{}", errkind(&e)))?;
     let by_path: BTreeMap<Vec<u8>, &Node> = ls.iter().map(|(p, n)| (p.as_os_str().as_bytes().to_vec(), n)).collect();
@@ -594,6 +598,125 @@ fn verify<S: IndexedFull>(repo: &Repository<S>, root: &Node, exps: &[Exp], opts:
                 }
             }
         }
+    }
+    // --- every entry BY PATH: `Tree::node_from_path` through `Repository::node_from_path`, `Vfs`, `snapshot:path`
+    // (`node_from_snapshot_path`, `node_from_snapshot_and_path`; strings, so only for UTF-8 paths) and `find_nodes_from_path` has to
+    // give the node the listing gave; dump / ranged reads / listing / restore THROUGH the node found by path equal the source
+    let Some(root_tree) = root.subtree else { return Err("oracle-fail:by-path-root-without-subtree".into()) };
+    let vfs = rustic_core::vfs::Vfs::from_dir_node(root);
+    let snap_hex = snap.id.to_hex().to_string();
+    let mut by_path_nodes: BTreeMap<Vec<u8>, Node> = BTreeMap::new();
+    for e in exps {
+        let listed = by_path[&e.rel];
+        let rel = PathBuf::from(os(&e.rel));
+        let hp = hex(&e.rel);
+        let same = |how: &str, got: RusticResult<Node>| -> Result<Node, String> {
+            match got {
+                Err(err) => Err(format!("oracle-fail:by-path-{}:{how}:{hp}", errkind(&err))),
+                Ok(n) if &n != listed => Err(format!("oracle-fail:by-path-other-node:{how}:{hp}")),
+                Ok(n) => Ok(n),
+            }
+        };
+        let n1 = same("node_from_path", repo.node_from_path(root_tree, &rel))?;
+        _ = same("vfs-node_from_path", vfs.node_from_path(repo, &rel))?;
+        // a leading `/` (root component) is skipped by the lookup
+        let mut abs = b"/".to_vec();
+        abs.extend_from_slice(&e.rel);
+        _ = same("node_from_path-absolute", repo.node_from_path(root_tree, &PathBuf::from(os(&abs))))?;
+        let full = prefix.join(&rel);
+        // (the snapshot tree of `backup` of an absolute path has no root component)
+        if let Some(s) = full.to_str() {
+            _ = same("node_from_snapshot_path", repo.node_from_snapshot_path(&format!("{snap_hex}:{s}"), |_| true))?;
+            _ = same("node_from_snapshot_and_path", repo.node_from_snapshot_and_path(snap, s))?;
+        }
+        match repo.find_nodes_from_path(vec![root_tree], &rel) {
+            Err(err) => return Err(format!("oracle-fail:by-path-{}:find_nodes_from_path:{hp}", errkind(&err))),
+            Ok(f) => {
+                if f.matches.len() != 1 || f.matches[0].and_then(|i| f.nodes.get(i)) != Some(listed) {
+                    return Err(format!("oracle-fail:by-path-other-node:find_nodes_from_path:{hp}"));
+                }
+            }
+        }
+        match &e.kind {
+            SrcKind::File(c) => {
+                let mut buf = Vec::new();
+                repo.dump(&n1, &mut buf).map_err(|err| format!("oracle-fail:by-path-dump-{}:{hp}", errkind(&err)))?;
+                if &buf != c {
+                    return Err(format!("oracle-fail:by-path-dump-content:{hp}"));
+                }
+                let of = repo.open_file(&n1).map_err(|err| format!("oracle-fail:by-path-open-{}:{hp}", errkind(&err)))?;
+                let len = c.len();
+                let bounds = bounds_of.get(&e.rel).cloned().unwrap_or_default();
+                for (off, l) in read_ranges(&mut rng, len, &bounds, 6) {
+                    let got = repo.read_file_at(&of, off, l).map_err(|err| format!("oracle-fail:by-path-read_at-{}:{hp}", errkind(&err)))?;
+                    let want: &[u8] = if off >= len { &[] } else { &c[off..(off + l).min(len)] };
+                    if got.as_ref() != want {
+                        return Err(format!("oracle-fail:by-path-read_at-content:{hp}:{off}:{l}:{len}"));
+                    }
+                }
+            }
+            SrcKind::Dir => {
+                // sub-path ls (recursive) and the directory entries the Vfs gives (names as bytes, types)
+                let mut pre = e.rel.clone();
+                pre.push(b'/');
+                let below: BTreeMap<Vec<u8>, char> = exps.iter().filter(|x| x.rel.starts_with(&pre)).map(|x| (x.rel[pre.len()..].to_vec(), exp_char(x))).collect();
+                if ls_set(repo, &n1, &LsOptions::default())? != below {
+                    return Err(format!("oracle-fail:by-path-ls:{hp}"));
+                }
+                let ents = vfs.dir_entries_from_path(repo, &rel).map_err(|err| format!("oracle-fail:by-path-{}:vfs-dir_entries_from_path:{hp}", errkind(&err)))?;
+                let got: BTreeMap<Vec<u8>, char> = ents.iter().map(|n| (n.name().as_bytes().to_vec(), kind_char(n))).collect();
+                let want: BTreeMap<Vec<u8>, char> = exps.iter().filter(|x| parent_of(&x.rel) == Some(&e.rel)).map(|x| (last_comp(&x.rel).to_vec(), exp_char(x))).collect();
+                if got.len() != ents.len() || got != want {
+                    return Err(format!("oracle-fail:by-path-dir-entries:{hp}"));
+                }
+            }
+            SrcKind::Symlink(t) => {
+                if n1.node_type.to_link().as_os_str().as_bytes() != t.as_slice() {
+                    return Err(format!("oracle-fail:by-path-symlink-target:{hp}"));
+                }
+            }
+        }
+        _ = by_path_nodes.insert(e.rel.clone(), n1);
+    }
+    // names that are NOT in the tree are not found: the escaped form of a name that needs escaping, a name with a byte appended
+    for e in exps.iter().filter(|x| x.tag != 'R') {
+        let name = last_comp(&e.rel);
+        let esc = rustic_core::verif::node::escape(name);
+        let mut longer = name.to_vec();
+        longer.push(b'~');
+        for cand in [esc.as_bytes().to_vec(), longer] {
+            let mut p = parent_of(&e.rel).map(<[u8]>::to_vec).unwrap_or_default();
+            if !p.is_empty() {
+                p.push(b'/');
+            }
+            p.extend_from_slice(&cand);
+            if cand.is_empty() || by_path.contains_key(&p) {
+                continue;
+            }
+            if repo.node_from_path(root_tree, &PathBuf::from(os(&p))).is_ok() {
+                return Err(format!("oracle-fail:by-path-found-absent-name:{}", hex(&p)));
+            }
+        }
+    }
+    // --- sub-path restore: one directory found by path is restored on its own and compared
+    let sub_dirs: Vec<&Exp> = exps.iter().filter(|x| matches!(x.kind, SrcKind::Dir) && x.tag != 'R').collect();
+    if !sub_dirs.is_empty() {
+        let d = *rng.pick(&sub_dirs);
+        let mut pre = d.rel.clone();
+        pre.push(b'/');
+        let sub_exps: Vec<Exp> = exps.iter().filter(|x| x.rel.starts_with(&pre)).map(|x| Exp { rel: x.rel[pre.len()..].to_vec(), ..x.clone() }).collect();
+        let dest_path = tmp.join("sub");
+        restore_into(repo, &by_path_nodes[&d.rel], &dest_path, RestoreOptions::default()).map_err(|e| format!("oracle-fail:by-path-restore-{e}"))?;
+        compare_restored(&dest_path, &sub_exps, &[], "by-path-restore")?;
+    }
+    // … and one file (or symlink) found by path: the destination then holds exactly that entry
+    let sub_files: Vec<&Exp> = exps.iter().filter(|x| !matches!(x.kind, SrcKind::Dir)).collect();
+    if !sub_files.is_empty() {
+        let f = *rng.pick(&sub_files);
+        let one = vec![Exp { rel: last_comp(&f.rel).to_vec(), ..f.clone() }];
+        let dest_path = tmp.join("subf");
+        restore_into(repo, &by_path_nodes[&f.rel], &dest_path, RestoreOptions::default()).map_err(|e| format!("oracle-fail:by-path-restore-file-{e}"))?;
+        compare_restored(&dest_path, &one, &[], "by-path-restore-file")?;
     }
     // --- ls variants: non-recursive listing of the root and of directories = their direct children; recursive listing of a
     // directory node = its descendants (paths relative to it)
@@ -977,7 +1100,7 @@ fn e2e(cfg: &Cfg, opts: &Opts, mut ents: Vec<PEnt>, seed: u64) -> String {
         Ok(t) => t,
         Err(_) => return "err:tempdir".into(),
     };
-    let obs = match verify(&repo, &root, &exps, opts, seed, tmp.path()) {
+    let obs = match verify(&repo, &snap, Path::new(""), &root, &exps, opts, seed, tmp.path()) {
         Ok(o) => o,
         Err(e) => return e,
     };
@@ -1127,7 +1250,7 @@ fn e2el(cfg: &Cfg, opts: &Opts, ents: Vec<PEnt>, seed: u64) -> String {
             Err(e) => return format!("oracle-fail:source-dir-not-in-snapshot-{}", errkind(&e)),
         }
     };
-    let obs = match verify(&repo, &root, &exps, opts, seed, &base) {
+    let obs = match verify(&repo, &snap, if opts.as_path { Path::new("") } else { &srcdir }, &root, &exps, opts, seed, &base) {
         Ok(o) => o,
         Err(e) => return e,
     };
@@ -1268,6 +1391,63 @@ fn big(cfg: &Cfg, shape: &str, n: u64, seed: u64) -> String {
     format!("ok {shape} {nfiles} chunks {chunks}")
 }
 
+/// `c01 lookup`: by-path lookups in ONE directory (see the module comment)
+fn lookup(names: &[Vec<u8>], queries: &[Vec<u8>]) -> String {
+    let cfg = Cfg { version: 2, comp: Some(0), fixed: true, avg: 4096, min: 4096, max: 4096, dp: None, tp: None };
+    let h = match init_with(&cfg, None) {
+        Ok(h) => h,
+        Err(e) => return format!("init-{e}"),
+    };
+    let ents: Vec<SrcEntry> = names.iter().map(|n| SrcEntry::file(&[b"d", n.as_slice()], b"")).collect();
+    let src = MemSource::new(ents);
+    let repo = match open_nc(&h).and_then(Repository::to_indexed_ids) {
+        Ok(r) => r,
+        Err(e) => return errkind(&e),
+    };
+    let snap = match repo.archive(&BackupOptions::default(), &src, SnapshotFile::default(), &[PathBuf::from(SRC_ROOT)]) {
+        Ok(s) => s,
+        Err(e) => return format!("backup-{}", errkind(&e)),
+    };
+    drop(repo);
+    let repo = match open_nc(&h).and_then(Repository::to_indexed) {
+        Ok(r) => r,
+        Err(e) => return errkind(&e),
+    };
+    // the stored tree of `d`: its nodes in stored order
+    let d = match repo.node_from_path(snap.tree, Path::new("src/d")) {
+        Ok(n) => n,
+        Err(e) => return format!("oracle-fail:lookup-dir-{}", errkind(&e)),
+    };
+    let Some(sub) = d.subtree else { return "oracle-fail:lookup-dir-without-subtree".into() };
+    let stored: Vec<Vec<u8>> = match repo.get_tree(&sub) {
+        Ok(t) => t.nodes.iter().map(|n| n.name().as_bytes().to_vec()).collect(),
+        Err(e) => return format!("oracle-fail:lookup-tree-{}", errkind(&e)),
+    };
+    let mut sorted = names.to_vec();
+    sorted.sort();
+    if stored != sorted {
+        return "oracle-fail:lookup-tree-not-sorted-by-name".into();
+    }
+    let mut out = Vec::new();
+    for q in queries {
+        let mut p = PathBuf::from("src/d");
+        p.push(os(q));
+        match repo.node_from_path(snap.tree, &p) {
+            Ok(n) => match stored.iter().position(|x| x.as_slice() == n.name().as_bytes()) {
+                Some(i) if n.name().as_bytes() == q.as_slice() => out.push(format!("f{i}")),
+                _ => return format!("oracle-fail:lookup-other-node:{}", hex(q)),
+            },
+            Err(_) => {
+                if names.contains(q) {
+                    return format!("oracle-fail:lookup-listed-name-not-found:{}", hex(q));
+                }
+                out.push("n".into());
+            }
+        }
+    }
+    format!("ok {}", out.join(" "))
+}
+
 fn run_e2e(rest: &[&str], local: bool) -> String {
     let ncfg = 8;
     if rest.len() < ncfg + 2 {
@@ -1350,6 +1530,16 @@ pub fn exec(toks: &[&str]) -> String {
                 }
                 let s = if linktarget_raw.is_some() { "-".to_string() } else { hex(linktarget.as_bytes()) };
                 format!("ok {} {} {s}", u8::from(linktarget_raw.is_some()), hex(&back))
+            }
+            ["lookup", names, queries] => {
+                let list = |t: &str| -> Option<Vec<Vec<u8>>> { t.split(',').map(unhex).collect() };
+                let (Some(names), Some(queries)) = (list(names), list(queries)) else { return "bad-op".into() };
+                let ok = |c: &Vec<u8>| !(c.is_empty() || c.len() > 255 || c == b"." || c == b".." || c.contains(&b'/') || c.contains(&0));
+                let distinct: std::collections::BTreeSet<&Vec<u8>> = names.iter().collect();
+                if !names.iter().chain(&queries).all(ok) || distinct.len() != names.len() {
+                    return "bad-op".into();
+                }
+                lookup(&names, &queries)
             }
             ["ixr", rest @ ..] => ixr::exec(rest),
             ["time", rest @ ..] => time::exec(rest),
@@ -1528,6 +1718,53 @@ pub fn generate(thorough: bool, rng: &mut Rng, ops: &mut Vec<String>, stats: &mu
         }
         stats.hit(if std::str::from_utf8(&t).is_ok() { "link.utf8" } else { "link.non-utf8" });
         ops.push(format!("c01 link {}", hex(&t)));
+    }
+    // by-path lookups in one directory: names around the bytes that escaping changes (`"`, `\\`, controls, invalid UTF-8) next to
+    // plain neighbours, so that the order of the escaped strings differs from the order of the names
+    const LK: [&[u8]; 24] = [
+        b"a!", b"a\"z", b"a#", b"m", b"z", b"\xff", b"caf\xe9", b"cafe", b"caff", b"Z", b"\\", b"a", b"tab\there", b"tab", b"tabz", b"\x01", b"0", b"~",
+        b"a\\b", b"a]b", b"a[b", b"\xc3\xa9", b"\xc3", b"x\ny",
+    ];
+    for i in 0..(if thorough { 1500 } else { 150 }) {
+        let k = 2 + rng.below(if i % 4 == 0 { 30 } else { 8 }) as usize;
+        let mut names: Vec<Vec<u8>> = Vec::new();
+        for _ in 0..k {
+            let n = match rng.below(4) {
+                0 => rand_name(rng),
+                1 => {
+                    // a neighbour of a name already there: one byte changed to an escape-relevant or plain one / appended
+                    let mut n = if names.is_empty() { b"a".to_vec() } else { rng.pick(&names).clone() };
+                    let b = *rng.pick(&[b'"', b'\\', b'!', b'#', b'[', b']', b'\t', b'\n', 0x7f, 0xff, 0x80, b'a', b'Z', b'~', b' ']);
+                    if rng.chance(1, 2) || n.is_empty() { n.push(b) } else { let j = rng.below(n.len() as u64) as usize; n[j] = b }
+                    n
+                }
+                _ => rng.pick(&LK).to_vec(),
+            };
+            if n.len() <= 255 && n != b"." && n != b".." && !names.contains(&n) {
+                names.push(n);
+            }
+        }
+        let mut queries = names.clone();
+        for n in names.clone() {
+            if rng.chance(1, 3) {
+                let e = rustic_core::verif::node::escape(&n).into_bytes();
+                if !queries.contains(&e) {
+                    queries.push(e);
+                }
+            }
+        }
+        for _ in 0..2 {
+            let n = rand_name(rng);
+            if !queries.contains(&n) && n != b"." && n != b".." {
+                queries.push(n);
+            }
+        }
+        stats.hit("lookup");
+        if names.iter().any(|n| rustic_core::verif::node::escape(n).as_bytes() != n.as_slice()) {
+            stats.hit("lookup.dir-with-escaped-name");
+        }
+        let l = |v: &[Vec<u8>]| v.iter().map(|x| hex(x)).collect::<Vec<_>>().join(",");
+        ops.push(format!("c01 lookup {} {}", l(&names), l(&queries)));
     }
     // one backup with more blobs than the indexer collects before it writes an index file
     let max_count = rustic_core::verif::indexer::MAX_COUNT as u64;
